@@ -684,6 +684,7 @@ func applyCase(r *hlib.Rng, s *hlib.Suite) {
 		for _, dsc := range descs {
 			if strings.Contains(dsc, " := col ") {
 				desc["class"] = "filteredapply-columnname-copy"
+				desc["props"] = []string{"C06"}
 			}
 		}
 		if od, ok := runOp(s, qf, desc, func() qframe.QFrame { return qf.FilteredApply(cl.goClause(), goI...) }); ok {
@@ -701,6 +702,15 @@ func applyCase(r *hlib.Rng, s *hlib.Suite) {
 		}
 	default:
 		desc := map[string]interface{}{"op": "apply", "instructions": descs, "derivation": hist, "props": allProps}
+		if od, ok := runOp(s, qf, desc, func() qframe.QFrame { return qf.Apply(goI...) }); ok {
+			dumps = []qframe.VerifFrame{in, od}
+			s.Count(fmt.Sprintf("apply-%d-instr", k))
+			if od.HasErr {
+				s.Count("apply-err")
+			}
+			s.Add(fmt.Sprintf("FApply %s %s %s %s", coqFrame(in), upperTable(in, od), coqIs(), coqFrame(od)), desc, nontrivial)
+		}
+		// (after the case has been rendered: the runs below advance stateful callbacks)
 		if k >= 2 {
 			// once an instruction has failed, no callback of a later instruction may be invoked (C10)
 			firstFail := -1
@@ -725,14 +735,6 @@ func applyCase(r *hlib.Rng, s *hlib.Suite) {
 				}
 				s.Count("apply-callbacks-after-failure-checked")
 			}
-		}
-		if od, ok := runOp(s, qf, desc, func() qframe.QFrame { return qf.Apply(goI...) }); ok {
-			dumps = []qframe.VerifFrame{in, od}
-			s.Count(fmt.Sprintf("apply-%d-instr", k))
-			if od.HasErr {
-				s.Count("apply-err")
-			}
-			s.Add(fmt.Sprintf("FApply %s %s %s %s", coqFrame(in), upperTable(in, od), coqIs(), coqFrame(od)), desc, nontrivial)
 		}
 	}
 }
